@@ -206,46 +206,43 @@ def r14_3_4_shared(chk):
 
 
 # ---------------------------------------------------------------------------------------------------- R14.5
+def write_path_stores(chk):
+    """The store inventory of sa/stores.py for DLISFile.write (cached on the Check's term engine)."""
+    te = chk.terms
+    if getattr(te, "_wps", None) is None:
+        from ..stores import WritePathStores
+        te._wps = WritePathStores(chk.ix, chk.cg, te, chk.ix.get_method("DLISFile", "write"), PER_WRITE_CLASSES)
+    return te._wps
+
+
 def r14_5_write_path_stores(chk):
-    ix, cg = chk.ix, chk.cg
-    write = ix.get_method("DLISFile", "write")
-    reach = cg.reachable([write])
-    found = {}
-    for f in reach:
-        if f.cls is not None and any(c.name in PER_WRITE_CLASSES for c in f.cls.mro()) and f.name != "__setattr__":
+    """Every store into an object that outlives the write, made by code reachable from DLISFile.write, must hold a
+    value computed from the specification alone.  A value computed from an argument of this write() (the data, the row
+    window, chunk sizes, the file name) that is left on a specification object is still there at the next write - and
+    after a failed one.  The inventory is semantic (object and field written, whatever function does it)."""
+    w = write_path_stores(chk)
+    for f in w.reach:
+        chk.consult(f)
+    chk.info["write_path_persistent_stores"] = sorted({f"{s.key}{' <- derived from write() arguments' if s.derived else ''}"
+                                                       for s in w.stores})
+    chk.info["write_derived_parameters"] = {f.short: sorted(ps) for f, ps in w.derived_params.items() if ps}
+    chk.floor("functions reachable from DLISFile.write", len(w.reach), 120)
+    chk.floor("persistent stores on the write path", len({s.key for s in w.stores}), 8)
+    chk.floor("write-derived parameters found by the provenance fixpoint", sum(len(v) for v in w.derived_params.values()),
+              40)
+    seen = set()
+    for s in sorted(w.stores, key=lambda x: (x.key, not x.derived)):
+        if s.key in seen:
             continue
-        if f.parent is not None and f.parent.cls is not None and \
-                any(c.name in PER_WRITE_CLASSES for c in f.parent.cls.mro()):
-            continue
-        for s in stores_in(f):
-            # stores into locals' fields of per-write objects are not persistent
-            classes = receiver_classes(ix, f, s.base)
-            if classes and all(any(c.name in PER_WRITE_CLASSES for c in k.mro()) for k in classes):
-                continue
-            if isinstance(s.base, ast.Name) and s.base.id in ("st", "chunk"):
-                continue
-            tgt = s.attr
-            if isinstance(s.base, ast.Attribute) and is_self_attr(s.base):
-                tgt = f"{s.base.attr}.{s.attr}"
-            elif isinstance(s.base, ast.Attribute) and isinstance(s.base.value, ast.Name):
-                tgt = f"{s.base.attr}.{s.attr}"
-            if s.kind == "setattr" and s.attr.startswith("<"):
-                tgt = "<key>"
-            found.setdefault((f.short, tgt), s)
-    chk.info["write_path_persistent_stores"] = sorted(f"{k[0]} -> {k[1]}" for k in found)
-    chk.floor("persistent stores on the write path", len(found), 8)
-    for key, s in sorted(found.items()):
-        verdict = WRITE_PATH_STORES.get(key)
-        if verdict in ("spec", "setter", "memo-invalidation", "memo", "mode-flag"):
-            chk.ok("R14.5", f"store:{key[0]}->{key[1]}", verdict, s.where, nontrivial=False)
-        elif verdict == "data":
-            chk.fail("R14.5", f"data-derived-store:{key[0]}->{key[1]}",
-                     "a value derived from the data / arguments of one write() is stored on a persistent object and "
-                     "is still there at the next write (or after a failed one)", s.where)
+        seen.add(s.key)
+        if s.derived:
+            from ..terms import pp
+            chk.fail("R14.5", f"data-derived-store:{s.key}",
+                     f"{s.func.short} stores `{pp(s.value)[:90]}`, a value computed from the arguments of one write(), "
+                     f"into {s.key} ({s.site}): it is still there at the next write (or after a failed one)", s.where)
         else:
-            chk.fail("R14.5", f"unclassified-store:{key[0]}->{key[1]}",
-                     f"code reachable from DLISFile.write stores into a persistent object (`{norm(s.node)[:80]}`): "
-                     f"state derived at one write would persist to the next", s.where)
+            chk.ok("R14.5", f"store:{s.key}", "value computed from the specification / constants only", s.where,
+                   nontrivial=False)
 
 
 # ---------------------------------------------------------------------------------------------------- R14.6
